@@ -188,10 +188,28 @@ def parse_output(out):
     return r
 
 
+def _is_alloc_shim(f):
+    loc = f.get("loc") or ""
+    return ("kani_lib.c" in loc and ("__rust_realloc" in loc or "__rust_dealloc" in loc or "__rust_alloc" in loc)) or "<builtin-library-" in loc
+
+
 def classify(res):
     """-> one of: pass, violation (property/default check failed), unwind, vacuous, error"""
     if res.get("timed_out"):
         return "timeout"
+    if res.get("mode") == "lean" and res.get("failed"):
+        # Lean mode = memory-safety instrumentation off.  The preconditions inside Kani's C allocation
+        # shims (kani_lib.c __rust_realloc/__rust_dealloc) and CBMC's builtin memcpy/free cannot be
+        # switched off and raise spurious failures on Vec growth inside large harnesses (isolated, the
+        # same code passes them; see DESIGN.md §7).  They are memory-model checks, so in lean mode they
+        # are recorded but not counted; C04 harnesses run in full mode where they do count.
+        shim = [f for f in res["failed"] if _is_alloc_shim(f)]
+        if shim:
+            res["ignored_memory_model_checks"] = [f["desc"] + " @ " + f["loc"] for f in shim]
+            res["failed"] = [f for f in res["failed"] if not _is_alloc_shim(f)]
+            res["checks_failed"] = len(res["failed"])
+            if not res["failed"] and res["verdict"] == "FAILED" and not res.get("status_error"):
+                res["verdict"] = "SUCCESSFUL"
     if res["verdict"] is None or res.get("status_error") and res["verdict"] != "SUCCESSFUL":
         return "error"
     for f in res["failed"]:
